@@ -347,7 +347,7 @@ func genCase(t *rapid.T) Case {
 		c.FuseFail = rapid.SliceOfNDistinct(rapid.IntRange(1, 10), 1, 3, rapid.ID[int]).Draw(t, "fusefail")
 	}
 
-	if hx.Thorough() {
+	if hx.Thorough() && rapid.Bool().Draw(t, "withcat") { // process spawns dominate the cost: half of the cases
 		c.Cat = rapid.SliceOfN(rapid.Custom(func(t *rapid.T) CatOp {
 			off := genTarget(t, &l, "co")
 			if off < 0 {
